@@ -123,7 +123,9 @@ theorem specUpdate_selected_ok {sdb sdb' : Spec.SDB} {table : Bytes} {sets : Lis
   simp only [Option.bind_some] at hspec
   split at hspec
   · cases hspec
-  · rw [hsel] at hspec
+  · split at hspec
+    · cases hspec
+    rw [hsel] at hspec
     simp only [Option.bind_some] at hspec
     cases hrows : (st.rows.zip sel).mapM (specUpdRow st.cols sets) with
     | none => rw [hrows] at hspec; cases hspec
@@ -185,6 +187,10 @@ theorem insert_state_in_rowPrefixStates (sdb sdb' sdbJ : Spec.SDB) (table : Byte
   | some st =>
     rw [hfind] at hspec hspecJ
     simp only [Option.bind_eq_bind, Option.bind_some] at hspec hspecJ
+    split at hspec
+    · cases hspec
+    split at hspecJ
+    · cases hspecJ
     cases hm : (rows.map fun r => r.map Spec.litVal).mapM (Spec.rowOf st cols) with
     | none => rw [hm] at hspec; cases hspec
     | some newRows =>
